@@ -19,7 +19,6 @@ JS = [
     b"function foo(a,b) {\n  list = a + b;\n}\nfoo(2, 3)\n",
     b"function Foo() {\n  this.list = [];\n}\nFoo.prototype.push = function(a) {\n  this.list.push(a);\n}\nFoo.prototype.last = function() {\n  return this.list.pop();\n}\n",
     b"var x = (function (a, b) {\n return a.p + b.q.r;\n})(1, 2);\nf(x.y, x.y.z);\n",
-    b"function foo(a) {}\nfoo(function foo(x){})\n",
     b"a.b.c = d.e;\nthis.a.b = this.c;\ng(h.i)\n",
 ]
 
@@ -147,7 +146,7 @@ def hill_climb(ctx, rounds):
 
 
 def known_finding_cases(ctx):
-    res = loaders.real_load("line", b"function foo(a) {}\nfoo(function foo(x){})\n")
+    res = loaders.real_load("line", b"function f(a){}\nf(function f(x){})\n")
     one(ctx, "replace-arguments-by-globals", dict(), "line", strat.fields(res[1]), lambda k, c: True, False, "known-finding")
 
 
